@@ -11,6 +11,7 @@ import (
 	"fmt"
 	"os"
 	"runtime"
+	"sync"
 	"time"
 	"unsafe"
 )
@@ -51,7 +52,18 @@ func vfLoadWitness(path string) error {
 	return nil
 }
 
+// free-running mode (used to confirm data races under go test -race): no
+// token scheduler, so that the replay itself adds no synchronisation; draws
+// made after the first goroutine was started return 0 without touching shared
+// state.
+var vfFreeRun = os.Getenv("VF_FREERUN") != ""
+var vfFreeStarted bool
+var vfFreeWG sync.WaitGroup
+
 func vfNext(kind string) uint64 {
+	if vfFreeRun && vfFreeStarted {
+		return 0
+	}
 	if vfW == nil {
 		panic("vf: no witness loaded (harness run natively without replay)")
 	}
@@ -322,6 +334,10 @@ func vfGoroutineID() int64 {
 // vfYield is a scheduling point (the transport model calls it on entry to
 // every operation).
 func vfYield() {
+	if vfFreeRun {
+		runtime.Gosched()
+		return
+	}
 	if !vfSched.active || len(vfSched.threads) < 2 {
 		return
 	}
@@ -338,6 +354,22 @@ func vfYield() {
 
 // vfGo starts a goroutine of the harness.
 func vfGo(f func()) {
+	if vfFreeRun {
+		if !vfFreeStarted {
+			vfFreeStarted = true
+		}
+		vfFreeWG.Add(1)
+		go func() {
+			defer vfFreeWG.Done()
+			defer func() {
+				if r := recover(); r != nil {
+					vfThreadPanic(r)
+				}
+			}()
+			f()
+		}()
+		return
+	}
 	if !vfSched.active {
 		vfSchedInit()
 		<-vfSched.mu
@@ -388,6 +420,10 @@ func vfThreadPanic(r interface{}) {
 
 // vfJoin waits for all goroutines started with vfGo.
 func vfJoin() {
+	if vfFreeRun {
+		vfFreeWG.Wait()
+		return
+	}
 	if !vfSched.active {
 		return
 	}
